@@ -60,6 +60,7 @@ pub struct Hooks {
     kill_at: AtomicU64,
     kill_seen: AtomicU64,
     jitter: AtomicU64,
+    rmdir: Mutex<Option<(String, std::path::PathBuf)>>,
     kill_log: Mutex<Option<std::fs::File>>,
     kill_prefix: Mutex<Vec<String>>,
     event_log: Mutex<Option<std::fs::File>>,
@@ -73,6 +74,7 @@ impl Hooks {
             kill_at: AtomicU64::new(0),
             kill_seen: AtomicU64::new(0),
             jitter: AtomicU64::new(0),
+            rmdir: Mutex::new(None),
             kill_log: Mutex::new(None),
             kill_prefix: Mutex::new(vec!["fs.".into(), "archive.".into()]),
             event_log: Mutex::new(None),
@@ -104,6 +106,10 @@ impl Hooks {
         let kill_at = std::env::var("RV_KILL_AT").ok().and_then(|v| v.parse::<u64>().ok()).unwrap_or(0);
         let kill_log = std::env::var("RV_KILL_LOG").ok().and_then(|p| std::fs::OpenOptions::new().create(true).append(true).open(p).ok());
         if kill_at != 0 || kill_log.is_some() { h.set_kill(kill_at, kill_log); }
+        // environment fault: remove a directory whenever a point is reached ("<point>:<path>")
+        if let Ok(s) = std::env::var("RV_RMDIR") {
+            if let Some((name, path)) = s.split_once(':') { *h.rmdir.lock().unwrap() = Some((name.to_string(), std::path::PathBuf::from(path))); }
+        }
         if let Ok(s) = std::env::var("RV_SLEEP") {
             for part in s.split(';').filter(|p| !p.is_empty()) {
                 if let Some((name, ms)) = part.split_once('=') { if let Ok(ms) = ms.parse::<u64>() { h.set_action(name, Some(Action::Sleep(Duration::from_millis(ms)))); } }
@@ -198,6 +204,7 @@ impl Hooks {
 
 impl Handler for Hooks {
     fn point(&self, name: &str, detail: &str) {
+        if let Some((n, path)) = self.rmdir.lock().unwrap().as_ref() { if n == name { let _ = std::fs::remove_dir_all(path); } }
         // Kill points.
         let is_kill = {
             let p = self.kill_prefix.lock().unwrap();
